@@ -199,6 +199,24 @@ func c12Required(c *core.Ctx) {
 	if shape != 4 {
 		argv = []string{gen.Poss[c.R.Intn(len(gen.Poss))]}
 	}
+	// the same with a -- on the line: in front (what follows is positional, also when dash-prefixed) or at the very end
+	switch c.R.Intn(5) {
+	case 1:
+		argv = append([]string{"--"}, argv...)
+	case 2:
+		if shape != 4 {
+			argv = []string{"--", []string{"-x", "-file", "--zz", "-"}[c.R.Intn(4)]}
+		}
+	case 3:
+		argv = append(argv, "--")
+	}
+	if len(argv) > 1 || (len(argv) == 1 && argv[0] == "--") {
+		if v, _ := decideBoth(p, BuildNFA(p, false), BuildNFA(p, true), argv); !v.Accept || v.Unclaimed {
+			c.Inc("R_variant_not_claimed")
+			return
+		}
+		c.Inc("R_with_dd_on_the_line")
+	}
 	d := descOf(p, argv)
 	c.Journal(d)
 	c.Nontrivial("R", d.Decl, d.Spec, fmt.Sprintf("%q", argv))
